@@ -36,13 +36,13 @@ pub static DEF: PropDef = PropDef {
 	],
 	expected_probes: &["family.random", "family.mutant", "family.tokens", "family.deep", "family.lengths", "family.yaml_aliases", "family.refused_by_target", "family.utf16_32", "family.empty_or_bom", "r.fail.fired", "w.fail.fired", "r.eintr.fired", "second_call_after_error", "verdict.err", "verdict.ok", "p.spawn", "p.exit0", "p.exit1", "p.sigpipe", "bin.debug", "bin.release"],
 	needs_bins: true,
-	watchdog_s: 25,
+	watchdog_s: 60,
 };
 
 fn runs(t: Tier) -> u64 {
 	match t {
 		Tier::Quick => 60_000,
-		Tier::Thorough => 10_000_000,
+		Tier::Thorough => 3_000_000,
 	}
 }
 
@@ -113,6 +113,10 @@ fn gen(seed: u64, idx: u64, t: Tier) -> J {
 			}
 		}
 		c.nommap = r.chance(1, 3);
+		// The unoptimised binary needs half a minute for a megabyte of deep YAML: big inputs go to the release binary.
+		if sc.calls.iter().any(|call| call.bytes.len() > 150_000) {
+			c.bin = "release".to_owned();
+		}
 		c.wsched = sc.writer.sched.clone();
 		if let Some(f) = &sc.writer.fault {
 			c.wfail = Some((f.at, *r.pick(&[crate::procsim::EPIPE, crate::procsim::ENOSPC, crate::procsim::EIO])));
